@@ -58,7 +58,7 @@ def run(t):
                        "immediate exit within 5 s. Answers must be 200 with a signature.")
     run.cov["exhaustive"] = False
     run.assumptions += ["signals are logged when sent; their effect is awaited by observation (port refusing, process gone), never by a fixed sleep deciding a verdict",
-                        "a request is 'in flight' once its head and half its body are written and 150 ms have passed; the TLS listener and HTTP/2 are not driven here (Relic.tla / C06 / C14 drive the in-process server)",
+                        "a request is 'in flight' once the server has answered its head with 100 Continue (the handler has begun to read the body) and half the body is written; the TLS listener and HTTP/2 are not driven here (Relic.tla / C06 / C14 drive the in-process server)",
                         "Windows signal handling (signals_windows.go) is not covered"]
     return run.finish()
 
